@@ -18,6 +18,21 @@ def _ambiguous_pair(g):
     return None
 
 
+def multiallelic_pair(g):
+    """Names of two ordinary alleles that carry different substitutions at one position (first such pair)."""
+    normal = [a for a in g["alleles"] if a["kind"] == "normal"]
+    for a in normal:
+        for b in normal:
+            if a["name"] >= b["name"]:
+                continue
+            for x in a["vars"]:
+                for y in b["vars"]:
+                    vx, vy = g["variants"][x], g["variants"][y]
+                    if x != y and vx["g"] == vy["g"] and vx["kind"] == vy["kind"] == "snp":
+                        return a["name"], b["name"]
+    return None
+
+
 def gen_units(rng, g):
     amb = _ambiguous_pair(g)
     if amb and rng.random() < 0.5:
